@@ -442,3 +442,55 @@ func TestC01ReferenceAgainstRealEvents(t *testing.T) {
 	}
 	col.Add("real_world_events_with_matching_reference_id", int64(n))
 }
+
+// TestC01ManyAuthors: authenticity does not depend on what was verified before. More than a
+// thousand distinct authors are verified in one process (whatever a verifier remembers about
+// keys has been filled and recycled), with unverifiable pubkeys in between; afterwards an event
+// that claims one pubkey and is signed by another key is still not authentic, for every
+// signing key seen, and genuine events of early and late authors still are.
+func TestC01ManyAuthors(t *testing.T) {
+	col := ev.For("C01").SetRule("many-authors: 1030-2100 derived keys; one event per key verified (authentic), forged events claiming an off-curve pubkey or an early author's pubkey but signed by each of the other keys (not authentic), genuine events of early authors again (authentic); non-trivial = always; distinct by the drawn sizes")
+	rapid.Check(t, func(t *rapid.T) {
+		n := rapid.SampledFrom([]int{1030, 1100, 2100}).Draw(t, "authors")
+		offAt := rapid.IntRange(0, 40).Draw(t, "unverifiable_first_seen_at")
+		off := rapid.SampledFrom(gen.OffCurvePubkeys).Draw(t, "off_curve")
+		desc := map[string]any{"authors": n, "off_curve_pubkey": off, "unverifiable_first_seen_at": offAt}
+		keys := make([]gen.Key, n)
+		for i := range keys {
+			keys[i] = gen.DerivedKey(i)
+		}
+		mk := func(i int, claim string, signer gen.Key) *mocrelay.Event {
+			e := &mocrelay.Event{Pubkey: claim, Kind: 1, CreatedAt: int64(1700000000 + i), Tags: []mocrelay.Tag{}, Content: fmt.Sprint("many authors ", i)}
+			gen.SignIDWith(e, signer)
+			return e
+		}
+		expect := func(e *mocrelay.Event, want bool, what string) {
+			ok, _ := authentic(e)
+			if ok != want {
+				sig, clause := "altered-authentic", "an event whose signature is not valid under the pubkey it claims is not authentic"
+				if want {
+					sig, clause = "signed-not-authentic", "every correctly signed event is reported authentic"
+				}
+				desc["failing"] = what
+				hx.Fail(t, ev.Failure{Property: "C01", Signature: sig, Clause: clause + " (after many distinct authors were verified)", Case: desc, Observed: fmt.Sprint(ok), Expected: fmt.Sprint(want)})
+			}
+		}
+		for i, k := range keys {
+			if i == offAt {
+				expect(mk(i, off, k), false, fmt.Sprintf("first sight of the off-curve pubkey, signed by author %d", i))
+			}
+			expect(mk(i, k.Pub, k), true, fmt.Sprintf("genuine event of author %d", i))
+		}
+		for j, k := range keys {
+			expect(mk(100000+j, off, k), false, fmt.Sprintf("claims the off-curve pubkey, signed by author %d", j))
+			if j != 0 {
+				expect(mk(200000+j, keys[0].Pub, k), false, fmt.Sprintf("claims author 0, signed by author %d", j))
+			}
+		}
+		for _, i := range []int{0, 1, offAt, n / 2, n - 1} {
+			expect(mk(300000+i, keys[i].Pub, keys[i]), true, fmt.Sprintf("genuine event of author %d, again", i))
+		}
+		col.Label("scale:many-authors")
+		col.Case(true, hx.JSON(desc), func() any { return desc })
+	})
+}
